@@ -1,4 +1,5 @@
 import Xp.Proofs.C20Ex
+import Xp.Proofs.C20Peer
 import Xp.Gen.C20Init
 /-
 C20 property theorems: initialisation is idempotent and never duplicates or
@@ -11,7 +12,13 @@ Vocabulary (defined in Model/Proofs):
 * `reach sem plan k p s` – every store visible at any instant of running `p` from
   `s` under fault plan `plan` (any outcome at any API call); `history g steps runs
   s` – the same over a sequence of runs, each with its own plan;
-* `evalOk p s` – the result of a fault-free run.
+* `evalOk p s` – the result of a fault-free run;
+* interference (last section): `Env Store` – what OTHER clients (a concurrent peer initialiser) do to the store
+  right before our API call number k; `runE sem env plan 0 p s` / `runP g steps env plan n s` – the run under that
+  interference; `ownE sem env plan 0 p s` – our own applied calls, each with the store at the moment it was
+  applied; `KeptFrom cas a b` – every secret that is `Protected` in `a` (complete; or not a CA secret and holding
+  any of tls.crt / tls.key / ca.crt) is unchanged in `b`; `PeerKeeps cas env` – the rely: the peer never rewrites
+  a protected secret. Every theorem above this section is about `run` = the case `Env.none` (`no_peer_is_plain_run`).
 -/
 namespace Xp.C20
 open Xp
@@ -328,6 +335,188 @@ example :
     findSecret t "crossplane-root-ca" = findSecret exStore "crossplane-root-ca" ∧
     (findSecret t "crossplane-tls-server").map (·.crt) = some (.cert ⟨100, 1, ["crossplane-webhooks", "crossplane-webhooks.crossplane-system", "crossplane-webhooks.crossplane-system.svc"], false⟩) ∧
     r.2.map (·.1) = some Res.ok ∧ r.1.pkgs = t.pkgs ∧ r.1.crds = t.crds ∧ r.1.whcs.map (·.name) = t.whcs.map (·.name) := by
+  decide
+
+/-! ### interference by a concurrent peer initialiser
+
+Crossplane runs this initialisation in several pods at once (core and rbac-manager init containers,
+replicas, old and new pod of a rolling update). An `AlreadyExists` answer to a Create – after a Get that
+said NotFound – can only come from such a peer, and so can a Conflict answer to an Update that nobody
+injected. The theorems of this section quantify over ALL stores, fault plans and peer interference
+(`Env Store`: any change of the store before any of our calls).
+
+What survives and what does not:
+* (a) `own_writes_never_clobber` holds for EVERY environment – it is the guarantee of our own calls;
+* `ca_kept` / `certs_kept` survive under the rely `PeerKeeps` (`existing_tls_kept_under_interference`) and
+  are false without it (example with `pxRogue` below): they are a joint property of all initialisers;
+* `new_certs_chain_to_stored_ca` / `dns_covered` ("every secret that differs from the start is chained")
+  do NOT survive, even under the rely: a secret may differ because the peer filled it (example with
+  `pxForeign`). Their replacement is (b) `own_certs_chain_under_interference`, about the secrets WE wrote;
+* "a run completes whenever the undisturbed run would" (monitor C20:rerun-failed, assumed by
+  `crash_then_rerun`) does NOT survive: the run whose Create is refused aborts (example with `pxPeer`) – that is
+  the intended behaviour; what holds instead is (c) `rerun_after_peer_abort_converges`;
+* `step_idempotent` / `init_idempotent` / `ca_bundle_injected` / `completed_steps_stay_done` speak about
+  interference-free runs and are unaffected as stated; read with a peer acting during the second run they
+  fail trivially (the peer's writes change the store). `defaults_untouched`, `no_second_package`,
+  `hypotheses_survive_any_abort` do not survive a peer that touches packages / defaults; the interference
+  modelled in the differential harness is confined to secrets. -/
+
+/-- The interference-free semantics is the special case of no peer: every theorem above is a theorem
+about `runP … Env.none`. -/
+theorem no_peer_is_plain_run (g : Generator) (steps : List Step) (plan : Plan) (n : Nat) (s : Store) :
+    runP g steps Env.none plan n s = run sem plan 0 (runSteps g steps n 0) s :=
+  runE_none sem plan 0 _ s
+
+/-- (a) An existing CA and existing certificates are never overwritten – stated about the write requests
+the run issues, for EVERY store, fault plan and EVERY interference (no rely): each own applied call
+leaves every secret that is protected AT THE MOMENT OF THE CALL exactly as it is; and an own secret write
+that changes the store is either a Create of an object that is absent at that moment, or an Update of
+exactly the object this run read (unchanged since: the resourceVersion precondition), which was not
+protected – an incomplete CA secret, or a certificate secret without any material. -/
+theorem own_writes_never_clobber (g : Generator) (steps : List Step) (env : Env Store) (plan : Plan) (n : Nat) (s : Store) :
+    ∀ x ∈ ownE sem env plan 0 (runSteps g steps n 0) s,
+      KeptFrom (caNames steps) x.1 (exec x.1 x.2).1 ∧
+      ((exec x.1 x.2).1 ≠ x.1 →
+        (∀ new, x.2 = .createSecret new → findSecret x.1 new.name = none) ∧
+        (∀ old new, x.2 = .updateSecret old new →
+          findSecret x.1 new.name = some old ∧ ¬ Protected (caNames steps) old)) :=
+  fun x hx => ⟨own_step_keeps g steps env plan n s x hx, own_write_shape g steps env plan n s x hx⟩
+
+/-- `ca_kept` / `certs_kept` under interference: if the peer obeys the same rule (never rewrites a
+protected secret – `initialiser_peer_obeys_rely`: a peer that is an initialiser does), then whenever the
+run ends – under every fault plan, i.e. at every instant – every secret that was protected at the start is
+exactly what it was. -/
+theorem existing_tls_kept_under_interference (g : Generator) (steps : List Step) (env : Env Store)
+    (henv : PeerKeeps (caNames steps) env) (plan : Plan) (n : Nat) (s : Store) :
+    KeptFrom (caNames steps) s (runP g steps env plan n s).1 :=
+  kept_under_interference g steps env henv plan n s
+
+/-- (b) Newly issued certificates chain to the stored authority, under interference: every secret other
+than the CA secret that THIS run wrote (the write was applied) is, when the run ends – whatever the fault
+plan and whatever a rely-obeying peer did in between – still exactly what was written, signed by the key
+pair of the certificate stored, complete, in the CA secret at that moment, carries that certificate as
+ca.crt and names the configured DNS names. (Holds for aborted runs too, hence for runs that report success.) -/
+theorem own_certs_chain_under_interference (g : Generator) (hg : g.Sound) (steps : List Step) (ca : String)
+    (hca : ∀ c ∈ caNames steps, c = ca) (env : Env Store) (henv : PeerKeeps [ca] env)
+    (plan : Plan) (n : Nat) (s : Store) :
+    ∀ x ∈ ownE sem env plan 0 (runSteps g steps n 0) s, ∀ new, x.2.writes = some new → new.name ≠ ca →
+      (exec x.1 x.2).2 = .ok →
+      ∃ sec C c ref, findSecret (runP g steps env plan n s).1 ca = some sec ∧ isComplete sec = true ∧ sec.crt = .cert C ∧
+        findSecret (runP g steps env plan n s).1 new.name = some new ∧
+        new.crt = .cert c ∧ new.key = .key c.kp ∧ new.ca = .cert C ∧ c.signedBy = C.kp ∧
+        ref ∈ leafRefs steps ∧ ref.name = new.name ∧ c.dns = ref.dns := by
+  intro x hx new hw hne hok
+  obtain ⟨hf, sec, C, l, c, ref, h1, h2, h3, h4, h5, h6, h7, h8, h9, h10, h11⟩ :=
+    own_leaves_chain g hg steps ca hca env henv plan n s x hx new hw hne hok
+  have e : l = new := by
+    have := hf.symm.trans h4
+    simpa using this.symm
+  subst e
+  exact ⟨sec, C, c, ref, h1, h2, h3, h4, h5, h6, h7, h8, h9, h10, h11⟩
+
+/-- (c) Re-running after an abort caused by the peer converges: let a run of the TLS steps be disturbed by
+any peer interference that keeps the CA secret loadable (`PeerWellFormed`: true of a peer that is an
+initialiser) and by any fault plan – in particular let its Create be refused with AlreadyExists, or its
+Update with Conflict. Then a fault-free, interference-free re-run from whatever store that run left
+behind COMPLETES (every step), and keeps every protected secret it finds: the CA that is stored is the CA
+afterwards. (`Generator.Total`: the generator does not fail on a self-signed request or on a signer whose
+key matches its certificate; `TlsOnly`: the step list consists of TLS steps for `ca` with non-empty DNS
+names; `CAWellFormed ca s`: the CA secret of the original cluster, if complete, loads.) -/
+theorem rerun_after_peer_abort_converges (g : Generator) (hg : g.Sound) (ht : g.Total) (ca : String)
+    (steps : List Step) (hsteps : TlsOnly ca steps) (env : Env Store) (hw : PeerWellFormed ca env)
+    (plan : Plan) (n m : Nat) (s : Store) (hs : CAWellFormed ca s) :
+    ∃ t' m', run sem Plan.allOk 0 (runSteps g steps m 0) (runP g steps env plan n s).1 =
+        (t', some (Res.ok, m', steps.length)) ∧
+      KeptFrom (caNames steps) (runP g steps env plan n s).1 t' :=
+  rerun_succeeds g hg ht ca steps hsteps env hw plan n m s hs
+
+/-- The rely is met by the peer we care about: another initialiser – any step list over the same CA
+names, any generator, any nonce, run to completion before any one of our calls – never rewrites a
+protected secret, and (sound generator) never stores a CA secret that does not load. -/
+theorem initialiser_peer_obeys_rely (g : Generator) (steps : List Step) (cas : List String)
+    (h : ∀ ca ∈ caNames steps, ca ∈ cas) (n k0 : Nat) :
+    PeerKeeps cas (peerInit g steps n k0) ∧ (g.Sound → ∀ ca, PeerWellFormed ca (peerInit g steps n k0)) :=
+  ⟨peerInit_keeps g steps cas h n k0, fun hg ca => peerInit_wf g hg steps ca n k0⟩
+
+/-! #### non-vacuity and counterexamples (concrete peers of Proofs/C20Peer.lean) -/
+
+/-- A concrete peer (pod B = `pxPeer`: the same initialisation, completing right before our Create of the
+CA secret on a cluster without TLS secrets). Our Get said NotFound, our Create is refused: the run ABORTS,
+having written nothing; pod B's CA is stored; the repeated run loads it, completes and changes nothing.
+This also is the counterexample to "a run completes whenever the undisturbed run would". -/
+example :
+    let r := runP stdGen pxSteps pxPeer Plan.allOk 100 pxFresh
+    let again := run sem Plan.allOk 0 (runSteps stdGen pxSteps 200 0) r.1
+    (run sem Plan.allOk 0 (runSteps stdGen pxSteps 100 0) pxFresh).2.map (·.1) = some Res.ok ∧
+    r.2.map (·.1) = some (Res.err "tls: signer") ∧
+    (callLogE sem pxPeer Plan.allOk 0 (runSteps stdGen pxSteps 100 0) pxFresh).map (fun x => (x.2.1, x.2.2.map fun y => match y with | .err e => some e | _ => none)) =
+      [(.ok, some (some .notFound)), (.ok, some (some .alreadyExists))] ∧
+    (ownE sem pxPeer Plan.allOk 0 (runSteps stdGen pxSteps 100 0) pxFresh).all (fun x => decide ((exec x.1 x.2).1 = x.1)) = true ∧
+    (findSecret r.1 "crossplane-root-ca").map (·.crt) = some (.cert ⟨500, 500, ["crossplane-root-ca"], true⟩) ∧
+    (findSecret r.1 "crossplane-tls-server").map (fun l => (l.crt, l.ca)) =
+      some (.cert ⟨501, 500, ["crossplane-webhooks", "crossplane-webhooks.crossplane-system", "crossplane-webhooks.crossplane-system.svc"], false⟩,
+            .cert ⟨500, 500, ["crossplane-root-ca"], true⟩) ∧
+    again.2.map (·.1) = some Res.ok ∧ again.1 = r.1 := by
+  decide
+
+/-- the hypotheses of (b) and (c) are satisfiable by that peer -/
+example : PeerKeeps ["crossplane-root-ca"] pxPeer ∧ PeerWellFormed "crossplane-root-ca" pxPeer ∧
+    TlsOnly "crossplane-root-ca" pxSteps ∧ CAWellFormed "crossplane-root-ca" pxFresh := by
+  refine ⟨peerInit_keeps stdGen pxSteps _ (by simp [pxSteps, caNames]) 500 1, peerInit_wf stdGen ?_ pxSteps _ 500 1, ?_, ?_⟩
+  · refine ⟨?_, ?_, ?_⟩
+    · intro dns ca sg n kp c h
+      cases sg with
+      | none => simp [stdGen] at h; obtain ⟨rfl, rfl⟩ := h; exact ⟨rfl, rfl, rfl⟩
+      | some sg =>
+        simp only [stdGen] at h
+        split at h
+        · simp at h; obtain ⟨rfl, rfl⟩ := h; exact ⟨rfl, rfl, rfl⟩
+        · cases h
+    · intro dns ca n kp c h
+      simp [stdGen] at h; obtain ⟨rfl, rfl⟩ := h; rfl
+    · intro dns ca sg n kp c h
+      simp only [stdGen] at h
+      split at h
+      · rename_i hk
+        simp at h; obtain ⟨rfl, rfl⟩ := h; exact ⟨rfl, hk⟩
+      · cases h
+  · intro st hst
+    simp [pxSteps] at hst
+    subst hst
+    exact ⟨_, _, rfl, fun r h => by cases h; simp, fun r h => by cases h; simp⟩
+  · intro sec h
+    simp [pxFresh, findSecret] at h
+
+/-- the generator used to replay real runs is total in the sense of (c) -/
+example : stdGen.Total :=
+  ⟨fun _ _ _ => rfl, fun dns ca sg n h => by simp [stdGen, h]⟩
+
+/-- `new_certs_chain_to_stored_ca` does not survive interference, even by a peer that obeys the rely:
+`pxForeign` fills the (absent) server secret with a certificate of another authority before our first
+call; our run keeps it (as it must), so at the end a secret differs from the start and is not chained. -/
+example : PeerKeeps ["crossplane-root-ca"] pxForeign ∧
+    findSecret (runP stdGen pxSteps pxForeign Plan.allOk 100 pxFresh).1 "crossplane-tls-server" ≠
+      findSecret pxFresh "crossplane-tls-server" ∧
+    ¬ Chained "crossplane-root-ca" (leafRefs pxSteps) (runP stdGen pxSteps pxForeign Plan.allOk 100 pxFresh).1 "crossplane-tls-server" := by
+  refine ⟨pxForeign_keeps, by decide, ?_⟩
+  rintro ⟨sec, C, l, c, ref, h1, _, h3, h4, _, _, h7, _⟩
+  have hl : (findSecret (runP stdGen pxSteps pxForeign Plan.allOk 100 pxFresh).1 "crossplane-tls-server").map (·.ca) =
+      some (.cert ⟨9, 9, ["crossplane-root-ca"], true⟩) := by decide
+  have hc : (findSecret (runP stdGen pxSteps pxForeign Plan.allOk 100 pxFresh).1 "crossplane-root-ca").map (·.crt) =
+      some (.cert ⟨100, 100, ["crossplane-root-ca"], true⟩) := by decide
+  rw [h4] at hl
+  rw [h1] at hc
+  simp only [Option.map_some, Option.some.injEq] at hl hc
+  rw [h7] at hl
+  rw [h3] at hc
+  cases hl
+  cases hc
+
+/-- `ca_kept` needs the rely: a peer that overwrites the complete CA secret (which no initialiser does)
+leaves another CA behind – our own calls still clobber nothing (`own_writes_never_clobber` needs no rely). -/
+example :
+    findSecret (runP stdGen pxSteps pxRogue Plan.allOk 100 pxWithCA).1 "crossplane-root-ca" ≠
+      findSecret pxWithCA "crossplane-root-ca" := by
   decide
 
 end Xp.C20
